@@ -82,6 +82,7 @@ def replay(job):
         if mode == "lsq_linear":
             sim.extra["wide_bounds"] = True
         k = 0
+        entered = []  # (op, nodes, value objects, unknowns): re-entered later with the SAME objects
         for st in beh["steps"]:
             c = st["c"]
             if st["op"] == "solve":
@@ -89,6 +90,7 @@ def replay(job):
             nodes = np.array(c["nodes"])
             vals = [value_form(fr(v), (idx + k) % 3, len(nodes)) for v in c["vals"]]
             k += 1
+            entered.append((st["op"], nodes, vals, c["unks"], [np.array(v, dtype=float).copy() if isinstance(v, np.ndarray) else None for v in vals]))
             if st["op"] == "dir":
                 sim.add_dirichlet(nodes, vals, c["unks"])
             else:
@@ -112,6 +114,24 @@ def replay(job):
             bad = int(np.argmax(np.abs(x - exp)))
             kind = "constrained" if bad in beh["known"] else "free"
             viol.append((f"solution/{mode}/{beh['sys']}/{kind}", f"Solve() with {mode} returns {x} but the stated system has the solution {exp} (dof {bad}, {kind}; conditions {[(s['op'], s['c']['nodes'], s['c']['unks'], [str(fr(v)) for v in s['c']['vals']]) for s in beh['steps'][:-1]]})", case))
+        # the caller's value arrays are inputs: entering a condition must not modify them, and the same objects entered again
+        # after Bc_Init() describe the same problem
+        if mode == "scipy":
+            for op_, nodes_, vals_, unks_, snaps_ in entered:
+                for v_, s_ in zip(vals_, snaps_):
+                    if s_ is not None and not np.array_equal(v_, s_):
+                        viol.append((f"input-modified/{beh['sys']}", f"the array given as value of a {'Dirichlet' if op_ == 'dir' else 'point-load'} condition on nodes {list(nodes_)} was modified in place: {s_} -> {v_}", case))
+                        break
+            try:
+                with contextlib.redirect_stdout(io.StringIO()), np.errstate(all="ignore"):
+                    sim.Bc_Init()
+                    for op_, nodes_, vals_, unks_, _ in entered:
+                        (sim.add_dirichlet if op_ == "dir" else sim.add_neumann)(nodes_, vals_, unks_)
+                    x2 = sim.Solve()
+                if not np.all(np.isfinite(x2)) or np.abs(x2 - exp).max() / scale > tol:
+                    viol.append((f"re-entered/{beh['sys']}", f"the same conditions entered again after Bc_Init() (same value objects) give {x2}, the stated system has the solution {exp}", case))
+            except Exception as ex:
+                viol.append((f"re-entered-raises/{beh['sys']}", f"re-entering the conditions after Bc_Init() raises {type(ex).__name__}: {ex}", case))
         # the prescribed vector the library reports
         vd = sim.Bc_vector_Dirichlet()
         for d in set(dir_dofs):
